@@ -9,9 +9,7 @@
   regenerated function writes exactly the model's target list of that phase, in the model's order, consuming the raw
   codewords from the same offset (`k_getDataBlocks_part1/2/3`); part 3 includes the version-24 rotation
   `jOffset = (j+8) % numResultBlocks`, `iOffset = i-1` for `jOffset > 7`.
-  NOT proved (`_partial`): the composition of the whole function (the block-count sum, the construction of the empty
-  blocks, the two `len(result[0].codewords)` reads and the final length check) with these three loops into
-  `genDB raw v = expDB (DMDec.getDataBlocks raw v)`; those parts stay tied by the `datablocks` correspondence suite of C08.
+  The composition of the whole function is `k_getDataBlocks_eq` in Obligations/K08bDecAll.lean.
 -/
 import Gzx.Gen.K08b
 import Gzx.KernelGuard
